@@ -106,6 +106,11 @@ class Ctx:
         self.callee_hook = None
 
     def vc(self, label, path, goal, kind, line=None, note=""):
+        if kind == "defined" and not getattr(self, "strict_defined", False):
+            # partial correctness (S6): a library operation that is undefined here raises instead of returning,
+            # so on the continuing path its definedness condition holds
+            path.assume(goal)
+            return
         if not self.emit:
             return
         if goal is True:
@@ -355,27 +360,56 @@ def arr_index(a, idxs):
         r.gather = (a, plan[0][1])
     if plan and plan[0][0] == "shift" and all(k == "shift" and not is_z3(x) and x == 0 for k, x in plan[1:]):
         lo0 = plan[0][1]
-        r.gather = (a, Arr([new_shape[0]], lambda k, lo0=lo0: to_z3(lo0) + to_z3(k), "int"))
+        sh = Arr([new_shape[0]], lambda k, lo0=lo0: to_z3(lo0) + to_z3(k), "int")
+        sh.shift_lo = lo0
+        r.gather = (a, sh)
         r.slice_of = (a, lo0)
     return r
 
 
+def _level_inverse(src, idx):
+    """inverse of one gather level  k -> idx[k]  as a python function on terms, or None"""
+    if getattr(idx, "pos", None) is not None:                 # np.where result
+        return lambda i, idx=idx: idx.pos(to_z3(i))
+    if getattr(idx, "perm_inv", None) is not None:            # argsort result
+        return lambda i, idx=idx: idx.perm_inv(to_z3(i))
+    so = getattr(idx, "slice_of", None)
+    if so is not None:
+        inner = _level_inverse(None, so[0])
+        if inner is not None:
+            return lambda i, inner=inner, lo=so[1]: inner(i) - to_z3(lo)
+    if getattr(idx, "shift_lo", None) is not None:
+        return lambda i, idx=idx: to_z3(i) - to_z3(idx.shift_lo)
+    if getattr(idx, "is_identity", False):
+        return lambda i: to_z3(i)
+    return None
+
+
 def gather_path(rows, base):
-    """index array g with rows == base[g] (composition of the recorded one-level gathers), or None."""
+    """index array g with rows == base[g] (composition of the recorded one-level gathers), or None.
+    g.inverse(i), when every level is invertible, is the position r with g[r] == i (ghost witness)."""
     if rows is base:
         n = base.shape[0]
-        return Arr([n], lambda k: to_z3(k), "int")
-    g = getattr(rows, "gather", None)
-    if g is None:
+        g = Arr([n], lambda k: to_z3(k), "int")
+        g.inverse = lambda i: to_z3(i)
+        return g
+    gth = getattr(rows, "gather", None)
+    if gth is None:
         return None
-    src, idx = g
+    src, idx = gth
+    inv0 = _level_inverse(src, idx)
     if src is base:
+        if inv0 is not None and getattr(idx, "inverse", None) is None:
+            idx.inverse = inv0
         return idx
     inner = gather_path(src, base)
     if inner is None:
         return None
     r = Arr(idx.shape, lambda k, inner=inner, idx=idx: inner.at(idx.at(k)), "int")
     r.facts = list(getattr(idx, "facts", [])) + list(getattr(inner, "facts", []))
+    inv_in = getattr(inner, "inverse", None)
+    if inv0 is not None and inv_in is not None:
+        r.inverse = lambda i, inv0=inv0, inv_in=inv_in: inv0(inv_in(i))
     return r
 
 
@@ -850,8 +884,12 @@ class Executor:
                     return f(self, path)
                 return f
             key = f"{v.cls}.{attr}"
+            if key in self.ctx.contracts and getattr(self.ctx.contracts[key], "is_property", False):
+                return self.call_contract(self.ctx.contracts[key], [v], {}, path, node)
             if key in self.ctx.lib or key in self.ctx.contracts or f"{v.cls}.*" in self.ctx.lib:
                 return BoundMethod(v, attr, node.value if node is not None else None)
+            if attr == "__class__":
+                return NameRef(v.fields.get("__qualclass__", v.cls))
             raise Unsupported(f"attribute {attr} of {v!r}")
         if isinstance(v, Arr):
             if attr == "shape":
